@@ -35,6 +35,8 @@ const t0 = 3_600_001 // average block time = average external block time (ms): o
 var unit = sdkmath.NewInt(1_000_000_000_000_000_000)
 var envKey = []byte{0xFE, 'e', 'n', 'v'}
 
+const callData, callMemo = "a1b2c3", "0d0e"
+
 type Consts struct {
 	Chain    string   `json:"chain"`
 	Token    string   `json:"Token"` // "FX" (default) or "module": a module-owned ERC-20 pair with a bridge denomination
@@ -285,7 +287,8 @@ func (a *Adapter) Apply(ctx sdk.Context, op graph.Op) (sdk.Context, string) {
 			MinimumFee: unit.MulRaw(op.Int("f")), FeeReceive: world.DetExt(ch + "/feereceive"), BaseFee: unit.MulRaw(op.Int("a"))})
 	case "BridgeCall":
 		u := a.user(op.Str("u")).AccAddress().String()
-		err = w.Handle(ctx, &types.MsgBridgeCall{ChainName: ch, Sender: u, Refund: u, Coins: sdk.NewCoins(a.coin(op.Int("a"))), To: a.dest, Data: "", Value: sdkmath.ZeroInt(), Memo: ""})
+		r := a.user(op.Str("e")).AccAddress().String()
+		err = w.Handle(ctx, &types.MsgBridgeCall{ChainName: ch, Sender: u, Refund: r, Coins: sdk.NewCoins(a.coin(op.Int("a"))), To: a.dest, Data: callData, Value: sdkmath.ZeroInt(), Memo: callMemo})
 	case "FxBlock":
 		// end of this block, begin of the next one, through the application's real begin/end blockers
 		err = world.Atomic(ctx, func(c sdk.Context) error {
@@ -417,6 +420,7 @@ type btRec struct {
 type clRec struct {
 	St      string `json:"st"`
 	U       string `json:"u"`
+	R       string `json:"r"`
 	Amt     int64  `json:"amt"`
 	Timeout int64  `json:"timeout"`
 }
@@ -499,7 +503,7 @@ func (a *Adapter) Project(ctx sdk.Context) any {
 	it.Close()
 	cls := make([]clRec, c.MaxCall+1)
 	for i := range cls {
-		cls[i] = clRec{St: "none", U: "none"}
+		cls[i] = clRec{St: "none", U: "none", R: "none"}
 		if int64(i+1) <= ncl {
 			cls[i].St = "gone"
 		}
@@ -515,10 +519,12 @@ func (a *Adapter) Project(ctx sdk.Context) any {
 				amt += units(t.Amount)
 			}
 			u := a.userName(types.ExternalAddrToAccAddr(c.Chain, oc.Sender))
-			if oc.Refund != oc.Sender {
-				u += "!refund"
+			r := a.userName(types.ExternalAddrToAccAddr(c.Chain, oc.Refund))
+			// what is queued for the external chain carries exactly what the creator supplied
+			if oc.To != a.dest || oc.Data != callData || oc.Memo != callMemo {
+				u += "!payload"
 			}
-			cls[i] = clRec{St: "open", U: u, Amt: amt, Timeout: int64(oc.Timeout)}
+			cls[i] = clRec{St: "open", U: u, R: r, Amt: amt, Timeout: int64(oc.Timeout)}
 		}
 	}
 	it.Close()
